@@ -116,6 +116,10 @@ func (j *jsonParser) Pull() (node.Node, bool, error) {
 
 	tok, err := j.jsonReader.Token()
 
+	if err == io.EOF && len(j.stateStack) > 0 {
+		return nil, false, io.ErrUnexpectedEOF
+	}
+
 	if err != nil {
 		return nil, false, err
 	}
